@@ -541,8 +541,8 @@ impl Property for C04 {
     const ID: &'static str = "C04";
     const RULE: &'static str = "leap multisets over {no warning, +1, -1, unknown} on selected and unselected sources: (i) direct calls of the combination step on 1-9 selected snapshots; (ii) histories of updates through the real controller with usable flags, removals and sources outside the consensus; oracle = strict majority among the used sources ignoring unknown: if one exists the kernel status update and the published snapshot carry it, otherwise no status update is issued and the snapshot keeps the previous indicator (expected value computed from the used sources only, so an unselected source's flag can never matter); non-trivial = ≥2 used sources with ≥2 distinct indicators";
     const ASSUMPTIONS: &'static [&'static str] = &["unsynchronised sources are never passed to the combination step (the selection removes them; C03 checks that)"];
-    const QUICK_CASES: u32 = 100_000;
-    const THOROUGH_CASES: u32 = 5_000_000;
+    const QUICK_CASES: u32 = 500_000;
+    const THOROUGH_CASES: u32 = 10_000_000;
     fn strategy(_t: Tier) -> BoxedStrategy<SelCase> {
         sel_strategy(static_history(), false)
     }
@@ -769,8 +769,8 @@ impl Property for C06 {
     const ID: &'static str = "C06";
     const RULE: &'static str = "1-4 sources (two-way and one-way, periodic or not) × 8-200 events, mostly real measurements through the real source filters: offsets over the full representable range mixed with realistic noise, delays incl. 0, negative and huge, root delay/dispersion, leap flags, spacing 1 ms … 2^17 s, usability flips, end-of-slew, time advance, clock skew against the monotonic clock (meddling detection on/off), controller steering fed back to all sources; oracle = after every event: every value passed to the clock and every float of the published snapshot is finite, every estimate a source produces (raw f64 state read through the hook: offset, variances, covariance, frequency, wander, delay) is finite with non-negative variances, observe() never reports a negative uncertainty, no panic; non-trivial = a source reached the stable filter and the clock was updated at least once";
     const ASSUMPTIONS: &'static [&'static str] = &["measurements are finite; local times strictly increase by ≥ 1 ms per measurement (Skew ops model external clock changes)", "panic thresholds disabled so the process never exits"];
-    const QUICK_CASES: u32 = 40_000;
-    const THOROUGH_CASES: u32 = 2_000_000;
+    const QUICK_CASES: u32 = 150_000;
+    const THOROUGH_CASES: u32 = 3_000_000;
     const MAX_SHRINK_ITERS: u32 = 3000;
     fn strategy(_t: Tier) -> BoxedStrategy<KCase> {
         measurement_history()
@@ -795,8 +795,8 @@ impl Property for C10 {
     const ID: &'static str = "C10";
     const RULE: &'static str = "(a) association histories with RATE kisses and NTPv5 poll requests 0..255, limits 0 ≤ min ≤ desired ≤ max ≤ 17: every request's poll exponent within [min, max(max, requested)] and its timer within [1.01, 1.05]·2^poll; (b) real Kalman source filters under measurement histories (as C06) with 0 ≤ min ≤ initial ≤ max ≤ 17: the filter's desired poll interval always within [min, max]; non-trivial = (a) ≥3 polls with an interval change, (b) a source that reached the stable filter";
     const ASSUMPTIONS: &'static [&'static str] = <super::source::C10 as Property>::ASSUMPTIONS;
-    const QUICK_CASES: u32 = 50_000;
-    const THOROUGH_CASES: u32 = 2_500_000;
+    const QUICK_CASES: u32 = 150_000;
+    const THOROUGH_CASES: u32 = 4_000_000;
     const MAX_SHRINK_ITERS: u32 = 3000;
     fn strategy(t: Tier) -> BoxedStrategy<C10Case> {
         prop_oneof![
